@@ -224,6 +224,8 @@ func initPool() {
 			"table1.txt":  []byte("misc_feature    3..8\n                /note=\"added one\"\n"),
 			"table2.txt":  []byte("misc_feature    3..8\n                /note=\"added two\"\nvariation       12\n"),
 			"query.fasta": []byte(">q\ncctta\n"), "query2.fasta": []byte(">q\ncgcac\n"),
+			// files that hold, byte for byte, the text of a literal argument (and so no sequence at all)
+			"litguest.txt": []byte("@ggttcc"), "litquery.txt": []byte("@cctta"),
 		} {
 			if err := os.WriteFile(filepath.Join(poolDir, name), data, 0o644); err != nil {
 				panic(err)
@@ -239,7 +241,8 @@ func initPool() {
 var (
 	poolFiles  = map[string][]byte{}
 	secPartner = map[string]string{"query.fasta": "query2.fasta", "query2.fasta": "query.fasta", "guest.gb": "guest2.gb", "guest2.gb": "guest.gb", "guest3.gb": "guest.gb",
-		"guest.fasta": "query.fasta", "guest2.fasta": "query2.fasta", "host.gb": "host2.gb", "host2.gb": "host.gb", "host3.gb": "host.gb", "table1.txt": "table2.txt", "table2.txt": "table1.txt"}
+		"guest.fasta": "query.fasta", "guest2.fasta": "query2.fasta", "host.gb": "host2.gb", "host2.gb": "host.gb", "host3.gb": "host.gb", "table1.txt": "table2.txt", "table2.txt": "table1.txt",
+		"litguest.txt": "guest.fasta", "litquery.txt": "query.fasta"}
 )
 
 // setSecondary writes, for every {file} among args, either its own content or (alt) its partner's content to the
